@@ -46,6 +46,11 @@ func run(c *vk.Ctx) {
 	c.Assume("postgres and mysql are not exercised (no Docker); sqlite stands for the SQL family only where its code mirrors them")
 	c.Assume("ids containing ':' or '#' are not generated: tuple validation refuses them before any datastore is reached")
 
+	for id := range findings {
+		if c.FindingStatus(id) == "fixed" {
+			repaired[id] = true
+		}
+	}
 	mem, sql, closeAll, err := openBackends(fmt.Sprintf("seed%d", c.Seed))
 	if err != nil {
 		c.HarnessError("cannot open backends: %v", err)
